@@ -322,6 +322,10 @@ func (e *enc) strLit(s string) string {
 	e.strLits[s] = n
 	e.declare(n, "Str")
 	e.assert(fmt.Sprintf("(= (strlen %s) %d)", n, len(s)))
+	if s == "" {
+		// the empty string is the only string of length 0
+		e.assert(fmt.Sprintf("(forall ((s Str)) (! (=> (= (strlen s) 0) (= s %s)) :pattern ((strlen s))))", n))
+	}
 	// distinct from every other literal
 	for _, o := range sortedKeys(e.strLits) {
 		if o != s {
